@@ -1,0 +1,38 @@
+//! Verification hooks. Compiled only with `--cfg tablegen_lsp_verif`.
+//!
+//! A per-thread step counter that the lexer and the parser bump on every
+//! unit of work, so that a harness can bound the work done for an input and
+//! detect non-progress deterministically instead of by a watchdog.
+
+use std::cell::Cell;
+
+thread_local! {
+    static STEPS: Cell<u64> = const { Cell::new(0) };
+    static LIMIT: Cell<u64> = const { Cell::new(u64::MAX) };
+}
+
+/// Resets the counter of the current thread and sets the limit above which
+/// `step` panics.
+pub fn reset(limit: u64) {
+    STEPS.with(|s| s.set(0));
+    LIMIT.with(|l| l.set(limit));
+}
+
+/// Number of steps taken on the current thread since the last `reset`.
+pub fn steps() -> u64 {
+    STEPS.with(|s| s.get())
+}
+
+#[inline]
+pub(crate) fn step() {
+    let n = STEPS.with(|s| {
+        let n = s.get() + 1;
+        s.set(n);
+        n
+    });
+    if n > LIMIT.with(|l| l.get()) {
+        // disarm, so that unwinding code that lexes does not panic again
+        LIMIT.with(|l| l.set(u64::MAX));
+        panic!("verif: step limit exceeded");
+    }
+}
